@@ -58,7 +58,7 @@ fn numerals() -> Vec<String> {
 }
 
 fn data_items() -> Vec<&'static str> {
-    vec!["a", "a b", "\"a\"", "\" a \"", "1", "-0", "1e3", "inf", "", "x \"y\"", "\"x\" y", "é", "\"a,b\"", "\"a:b\"", "\"1\"", "\"inf\"", "\"NaN\"", "\"1e3\"", "\"\"", "nan", "BEEP", "\"BEEP\""]
+    vec!["a", "a b", "\"a\"", "\" a \"", "1", "-0", "1e3", "inf", "", "x \"y\"", "\"x\" y", "é", "\"a,b\"", "\"a:b\"", "\"1\"", "\"inf\"", "\"NaN\"", "\"1e3\"", "\"\"", "nan", "BEEP", "\"BEEP\"", "\u{a0}\"a\"", "\u{b}\"b\" "]
 }
 
 fn rem_forms() -> Vec<&'static str> {
